@@ -91,6 +91,8 @@ def dec(v):
     if k == 'R': return Rest(float(Fraction(v[1])))
     if k == 'S': return str(v[1])
     if k == 'B': return bool(v[1])
+    if k == 'N': return None
+    if k == 'BIG': return 1e6
     if k == 'SC': return dec_scale(v[1])
     raise ValueError(v)
 
@@ -184,11 +186,24 @@ def run_pat(case):
     start = float(Fraction(case.get('start', '0/1')))
     use_tempo = case.get("clock") == "tempo"
 
+    ctl = case.get('ctl')
+    proto_before = repr(sorted(proto.items(), key=lambda kv: kv[0])) if isinstance(proto, dict) else None
+
     @routine
     def starter():
         if start > 0:
             yield start
-        pat.play(TempoClock(1) if use_tempo else None, None, proto or None)
+        pl = pat.play(TempoClock(1) if use_tempo else None, None, proto or None)
+        if case.get('twice') is not None:          # the same pattern object played by a second player
+            yield float(Fraction(case['twice']))
+            pat.play(TempoClock(1) if use_tempo else None, None, proto or None)
+        if ctl:
+            now = start
+            for op, t in ctl:                       # absolute logical times, increasing
+                t = float(Fraction(t))
+                yield t - now
+                now = t
+                getattr(pl, op)()
 
     starter.play()
     score = main.process()
@@ -204,11 +219,49 @@ def run_pat(case):
         for m in row[1:]:
             if m[0] == '/c_set':
                 end = fr(row[0])
-    out = {'msgs': msgs, 'end': end, 'errors': list(ERRORS.records)[:3],
+    proto_after = repr(sorted(proto.items(), key=lambda kv: kv[0])) if isinstance(proto, dict) else None
+    out = {'msgs': msgs, 'end': end, 'errors': list(ERRORS.records)[:3], 'proto_unchanged': proto_before == proto_after,
            'tables': kernel_points(case.get('points', {}))}
     main.reset()
     srv.latency = 0
     return out
+
+
+def canon_event(e):
+    out = []
+    for k in sorted(e.keys()):
+        v = e[k]
+        c = enc(v)
+        out.append([k, c if c[0] in ('I', 'F', 'R', 'S', 'B', 'N') else ['X', type(v).__name__]])
+    return out
+
+
+def run_alias(case):
+    """pull the events of a stream by hand (as the player does: stream.next(proto.copy())), once leaving them alone
+    and once mutating every event (and the input dict) after it was yielded; later events must not change"""
+    main.reset()
+    proto = {k: dec(v) for k, v in case.get('proto', {}).items()}
+    res = {}
+    for mode in ('clean', 'mutated'):
+        pat = build(case['pat'])
+        strm = pat.__stream__()
+        evs = []
+        try:
+            for _ in range(64):
+                inev = proto.copy()
+                ev = strm.next(inev)
+                evs.append(canon_event(ev))
+                if mode == 'mutated':
+                    ev['zz_alias'] = 7
+                    for k in list(ev.keys()):
+                        if isinstance(ev[k], (int, float)) and not isinstance(ev[k], bool) and k != 'zz_alias':
+                            ev[k] = ev[k] + 1000
+                    inev['zz_in'] = 9
+        except Exception as ex:
+            evs.append(['end', type(ex).__name__])
+        res[mode] = evs
+    main.reset()
+    return {'clean': res['clean'], 'mutated': res['mutated'], 'proto_unchanged': 'zz_in' not in proto}
 
 
 def main_():
@@ -219,7 +272,7 @@ def main_():
     out = []
     for case in cases:
         try:
-            f = {'keys': run_keys, 'scale': run_scale, 'pat': run_pat}[case['kind']]
+            f = {'keys': run_keys, 'scale': run_scale, 'pat': run_pat, 'alias': run_alias}[case['kind']]
             out.append(f(case))
         except BaseException as ex:      # never let one case kill the run
             try:
